@@ -648,6 +648,44 @@ func c02R7(c *Ctx, r *Report) {
 		}
 		r.Check(found, rule, name+" / absent -> storage.ErrNotFound", "maps an absent key to storage.ErrNotFound", "Get never returns storage.ErrNotFound: the controller cannot translate 'absent' to not-found")
 	}
+	// Delete of an absent key is not an error (hashmap and bbolt cannot fail for a missing key; fstree and badger must filter 'not exist')
+	for _, t := range []struct{ fn, del, notExist string }{
+		{"database/storage/fstree.(*FSTree).Delete", "os.Remove", "field:global:io/fs.ErrNotExist"},
+		{"database/storage/badger.(*Badger).Delete$1", "github.com/dgraph-io/badger.Txn.Delete", "field:global:github.com/dgraph-io/badger.ErrKeyNotFound"},
+	} {
+		fn := c.Func(t.fn)
+		if fn == nil {
+			r.Undecided(rule, t.fn, "anchor function missing")
+			continue
+		}
+		var delCall *ssa.Call
+		eachInstr(fn, func(in ssa.Instruction) {
+			if call, ok := in.(*ssa.Call); ok && calleeName(&call.Call) == t.del {
+				delCall = call
+			}
+		})
+		if delCall == nil {
+			r.Undecided(rule, t.fn, "no "+t.del+" call")
+			continue
+		}
+		absentOK := Guard{Name: "error is not 'does not exist'", Truthy: false, Match: func(b ssa.Value) bool {
+			call, ok := isCallTo(b, "errors.Is")
+			return ok && hasOrigin(c.Origins(call.Call.Args[1]), t.notExist)
+		}}
+		k := 0
+		eachInstr(fn, func(in ssa.Instruction) {
+			ret, ok := in.(*ssa.Return)
+			if !ok || isNilConst(retVal(ret, 0)) {
+				return
+			}
+			// error returns that stem from the delete call
+			if !MustPrecede(fn, func(x ssa.Instruction) bool { return x == ssa.Instruction(delCall) }, ret) {
+				return
+			}
+			k++
+			c.RequireGuards(r, rule, fmt.Sprintf("%s / error exit #%d after the delete", t.fn, k), fn, ret, absentOK)
+		})
+	}
 	// Controller translates storage.ErrNotFound to ErrNotFound
 	for _, name := range []string{"database.(*Controller).Get", "database.(*Controller).GetMeta"} {
 		fn := c.Func(name)
